@@ -5,6 +5,7 @@
   references) and is checked on the implementation by the oracle.
 -/
 import HugrVerif.Proofs.StoreInsert
+import HugrVerif.Props.C04
 
 namespace HugrVerif.Props.C08
 open HugrVerif HugrVerif.Store HugrVerif.Py
@@ -103,6 +104,28 @@ theorem frame (a a' b : Store Ω μ) (hs : SInv a) (parent : Option Nat) (mp : D
   · intro j d' hd'
     obtain ⟨d1, e1⟩ := G.bwd j d' hd'
     exact hc.only j d1 e1
+
+/-- **For a B built through the API the hypotheses on its hierarchy walk hold** (so the three
+    theorems above apply unconditionally): `_hierarchy_order` returns normally, without duplicates,
+    exactly B's nodes — hence the mapping is defined on exactly the nodes of B. -/
+theorem mapping_total (rootOp : Ω) (m : μ) (a a' b : Store Ω μ) (hs : SInv a) (hb : C04.ReachT rootOp m b)
+    (parent : Option Nat) (mp : Dict Nat Nat) (h : insertHugr a b parent = .ok (a', mp)) :
+    ∃ order, hierarchyOrder b = .ok order ∧ order.Nodup ∧ Dict.keys mp = order ∧
+      (∀ i, (∃ x, Dict.get i mp = some x) ↔ ∃ d, getNode b i = .ok d) := by
+  obtain ⟨order, _, ho, hnd, _, hmem⟩ := C04.hierarchy_order_exact rootOp m b hb
+  obtain ⟨hk, _, _⟩ := mapping_embeds a a' b hs parent mp order ho hnd h
+  refine ⟨order, ho, hnd, hk, ?_⟩
+  intro i
+  show _ ↔ liveN b i
+  rw [← hmem i, ← hk]
+  constructor
+  · rintro ⟨x, hx⟩
+    exact (Dict.get_isSome_iff i mp).mp (by simp [hx])
+  · intro hi
+    have := (Dict.get_isSome_iff i mp).mpr hi
+    cases hg : Dict.get i mp with
+    | none => simp [hg] at this
+    | some x => exact ⟨x, rfl⟩
 
 /-- The result satisfies the store invariant again (C04), so every query on it is determined by
     the embedded multigraph. -/
